@@ -51,6 +51,9 @@ struct Counters {
     late: AtomicI64,
     rng: AtomicU64,
     jitter: AtomicBool,
+    /// consumer calls / calls whose output does not belong to the record (counted in every run, judged in long runs)
+    ncalls: AtomicI64,
+    nbad: AtomicI64,
 }
 impl Counters {
     fn new(seed: u64, jitter: bool) -> Counters {
@@ -64,6 +67,8 @@ impl Counters {
             late: AtomicI64::new(0),
             rng: AtomicU64::new(seed | 1),
             jitter: AtomicBool::new(jitter),
+            ncalls: AtomicI64::new(0),
+            nbad: AtomicI64::new(0),
         }
     }
     fn jitter(&self) {
@@ -532,6 +537,10 @@ pub struct ApiCase {
     pub recinit_fail_at: usize,
     pub setinit_fail_at: usize,
     pub slow_consumer: bool,
+    /// long input (many batches, large recycled vectors): consumer calls are not logged, only counted
+    pub big: bool,
+    /// for long inputs: what the input consists of, [kind, n]: kind 0 = n records with one base, kind 1 = one record with n bases
+    pub pattern: Vec<(usize, usize)>,
 }
 
 macro_rules! api_runner {
@@ -542,16 +551,21 @@ macro_rules! api_runner {
             let cap = c.cap;
             let stop_after = c.stop_after;
             let slow = c.slow_consumer;
+            let big = c.big;
             let ct2 = ct.clone();
             let calls2 = calls.clone();
             let works2 = works.clone();
             let mut ncalls = 0usize;
             let work = move |rec: seq_io::$m::RefRecord, d: &mut RecOut, tag: &mut i64| {
-                ct2.jitter();
+                if !big {
+                    ct2.jitter();
+                }
                 d.stale = false;
                 d.head = rec.head().to_vec();
                 d.n = rec.seq().len();
-                works2.lock().unwrap().push(format!("{{\"tag\":{},\"head\":{}}}", tag, jb(rec.head())));
+                if !big {
+                    works2.lock().unwrap().push(format!("{{\"tag\":{},\"head\":{}}}", tag, jb(rec.head())));
+                }
             };
             let ct3 = ct.clone();
             let func = move |rec: seq_io::$m::RefRecord, d: &mut RecOut, tag: &mut i64| -> Option<usize> {
@@ -559,15 +573,21 @@ macro_rules! api_runner {
                     ct3.jitter();
                 }
                 ncalls += 1;
-                calls2.lock().unwrap().push(format!(
-                    "{{\"rec\":{},\"out\":{{\"head\":{},\"n\":{},\"stale\":{}}},\"rawlen\":{},\"tag\":{}}}",
-                    $recjson(&rec, false, false),
-                    jb(&d.head),
-                    d.n,
-                    d.stale,
-                    rec.seq().len(),
-                    tag
-                ));
+                ct3.ncalls.fetch_add(1, Ordering::SeqCst);
+                if d.stale || d.head != rec.head() || d.n != rec.seq().len() {
+                    ct3.nbad.fetch_add(1, Ordering::SeqCst);
+                }
+                if !big {
+                    calls2.lock().unwrap().push(format!(
+                        "{{\"rec\":{},\"out\":{{\"head\":{},\"n\":{},\"stale\":{}}},\"rawlen\":{},\"tag\":{}}}",
+                        $recjson(&rec, false, false),
+                        jb(&d.head),
+                        d.n,
+                        d.stale,
+                        rec.seq().len(),
+                        tag
+                    ));
+                }
                 // mark the output as consumed: a result delivered twice or not recomputed shows up as stale
                 d.stale = true;
                 if stop_after > 0 && ncalls >= stop_after {
@@ -794,10 +814,11 @@ fn run_api(c: &ApiCase, seed: u64) -> String {
     let count = |t: &str, p: &str| -> usize { g.logs.iter().filter(|(n, _)| n.starts_with(t)).map(|(_, e)| e.iter().filter(|v| v["p"] == p).count()).sum() };
     let calls_v = calls.lock().unwrap();
     format!(
-        "{{\"ev\":\"run\",\"api\":\"{}\",\"fmt\":\"{}\",\"input\":{},\"cap\":{},\"NW\":{},\"Q\":{},\"stop_after\":{},\"rinit_fail\":{},\"recinit_fail_at\":{},\"setinit_fail_at\":{},\"result\":{},\"set_sizes\":{:?},\"calls\":[{}],\"nworks\":{},\"nrecinit\":{},\"nsetinit\":{},\"fills_ok\":{},\"senderr\":{},\"sendend\":{},\"recv_ok\":{},\"jobs_started\":{},\"jobs_finished\":{},\"late_events\":{}}}",
+        "{{\"ev\":\"run\",\"big\":{},\"api\":\"{}\",\"fmt\":\"{}\",\"input\":{},\"cap\":{},\"NW\":{},\"Q\":{},\"stop_after\":{},\"rinit_fail\":{},\"recinit_fail_at\":{},\"setinit_fail_at\":{},\"result\":{},\"set_sizes\":{:?},\"calls\":[{}],\"ncalls\":{},\"nbad\":{},\"nworks\":{},\"nrecinit\":{},\"nsetinit\":{},\"fills_ok\":{},\"senderr\":{},\"sendend\":{},\"recv_ok\":{},\"jobs_started\":{},\"jobs_finished\":{},\"late_events\":{}}}",
+        c.big,
         c.api,
         c.fmt,
-        jb(&c.x),
+        if c.big { format!("{:?}", c.pattern.iter().map(|p| vec![p.0, p.1]).collect::<Vec<_>>()) } else { jb(&c.x) },
         c.cap,
         c.nw,
         c.q,
@@ -808,6 +829,8 @@ fn run_api(c: &ApiCase, seed: u64) -> String {
         result,
         set_sizes,
         calls_v.join(","),
+        ct.ncalls.load(Ordering::SeqCst),
+        ct.nbad.load(Ordering::SeqCst),
         works.lock().unwrap().len(),
         ninit.0.load(Ordering::SeqCst),
         ninit.1.load(Ordering::SeqCst),
@@ -819,6 +842,27 @@ fn run_api(c: &ApiCase, seed: u64) -> String {
         ct.jobs_finished.load(Ordering::SeqCst),
         ct.late.load(Ordering::SeqCst)
     )
+}
+
+pub fn render_pattern(fmt: &str, pat: &[(usize, usize)]) -> Vec<u8> {
+    let mut x = vec![];
+    for &(kind, n) in pat {
+        if kind == 0 {
+            for _ in 0..n {
+                x.extend(if fmt == "fasta" { &b">t\nA\n"[..] } else { &b"@t\nA\n+\nI\n"[..] });
+            }
+        } else {
+            x.extend(if fmt == "fasta" { b">L\n" } else { b"@L\n" });
+            x.extend(std::iter::repeat(b'A').take(n));
+            x.push(b'\n');
+            if fmt == "fastq" {
+                x.extend(b"+\n");
+                x.extend(std::iter::repeat(b'I').take(n));
+                x.push(b'\n');
+            }
+        }
+    }
+    x
 }
 
 /// suite: {"fmt", "n", "apis": [...], "maxrec", ...}: random files through the public entry points
@@ -846,6 +890,8 @@ pub fn cmd_api(suite: &Value, out: &str, seed: u64) {
             recinit_fail_at: if faults && api.ends_with("_init") && rng.chance(1, 4) { 1 + rng.below(6) } else { 0 },
             setinit_fail_at: if faults && api.ends_with("_init") && rng.chance(1, 5) { 1 + rng.below(5) } else { 0 },
             slow_consumer: rng.chance(1, 3),
+            big: false,
+            pattern: vec![],
             x,
         };
         let mut c = c;
@@ -860,6 +906,27 @@ pub fn cmd_api(suite: &Value, out: &str, seed: u64) {
             c.recinit_fail_at = 1 + rng.below(nrec);
             c.stop_after = if rng.chance(1, 5) { 0 } else { 1 + rng.below(nrec) };
             c.cap = *rng.pick(&[3usize, 8, 12, 16, 24, 32]);
+        }
+        if suite["focus"].as_str() == Some("big") {
+            // many tiny records (batches of several hundred records), then a few long ones, repeated: the recycled
+            // per-record output vectors are much longer than some later batch
+            let mut pat = vec![];
+            for _ in 0..3 {
+                pat.push((0, 1500 + rng.below(1500)));
+                for _ in 0..(3 + rng.below(4)) {
+                    pat.push((1, 2500 + rng.below(800)));
+                }
+            }
+            let x = render_pattern(&fmt, &pat);
+            c.pattern = pat;
+            c.x = x;
+            c.big = true;
+            c.api = "parallel_init".into();
+            c.cap = 8192;
+            c.stop_after = 0;
+            c.rinit_fail = false;
+            c.recinit_fail_at = 0;
+            c.setinit_fail_at = 0;
         }
         let line = run_api(&c, seed.wrapping_add(i as u64));
         nruns += 1;
